@@ -61,6 +61,9 @@ let () =
       let (_, s) = get (ai a 1) in
       let (k, h) = R_cart.digest (cart_dump s.s_cart) in emit (Printf.sprintf "dump %d %d" k h));
   register "gb.btn" (fun a -> let (c, s) = get (ai a 1) in put (ai a 1) (c, sys_button s (an a 2) (ab a 3)));
+  register "gb.key" (fun a ->
+      let (_, vid) = flags (ai a 1) in
+      if vid then put (ai a 1) (sys_key (get (ai a 1)) (an a 2) (an a 3)));
   register "gb.set" (fun a ->
       let (c, s) = get (ai a 1) in
       put (ai a 1) ({ c with ra = an a 2; rb = an a 3; rc = an a 4; rd = an a 5; re = an a 6; rf = an a 7; rh = an a 8;
